@@ -71,7 +71,7 @@ def rule_R11_3(ctx):
                    "`>` instead of `>=` lets index == len through to a "
                    "panicking write")
     n = 0
-    for f, bb, kd, aops, sp in err_sites(prog, "OutOfListBounds", "eval::bind"):
+    for f, bb, kd, aops, sp in err_sites(prog, "OutOfListBounds", __import__("anchors").binder_module(prog)):
         n += 1
         g = guards.guard_of(f, bb)
         fields = guards.field_terms(f, kd, aops)
@@ -278,7 +278,7 @@ def rule_R11_2(ctx):
     n = 0
     for variant in ("OutOfStringBounds", "OutOfListBounds", "RangeOutOfListBounds", "RangeOutOfStringBounds"):
         for f, bb, kd, aops, sp in err_sites(prog, variant):
-            if f.module.startswith("eval::bind"):
+            if f.module.startswith(__import__("anchors").binder_module(prog)):
                 continue
             n += 1
             # nearest dominating Option switch from a `get`
